@@ -99,6 +99,7 @@ def opOfJson (j : Json) : Except String (List WorldOp) := do
     | "serialize" => pure [.serialize c kw (boolField j "camel")]
     | "deserialize" => pure [.serialize c kw (boolField j "camel"), .deserialize c kw]
     | "toSchema" => pure [.toSchema c]
+    | "schemaCode" => pure [.toSchema c]     -- structure_to_schema followed by schema_to_struct_code of the result
     | "createSerializer" => pure [.createSerializer c]
     | "trusted" => pure [.serialize c kw false, .trustedDeserialize c kw]
     | s => throw s!"op {s}"
